@@ -42,6 +42,31 @@ class Tagger:
         self.loopvars: dict[str, str] = {}
         self.bound_kind: dict[str, str] = {}
         self.valtag: dict[str, Any] = {}
+        #: optional cells whose condition tests the VALUE, not its presence
+        self.truthy: list[tuple[ast.AST, str]] = []
+
+    def presence(self, test: ast.expr, value_when: bool,
+                 value: ast.expr) -> None:
+        """The condition of an optional cell (`v if c else ""`) must test
+        whether the quantity is PRESENT (`k in d`, `v is not None`): a test
+        of the value's truthiness drops a legitimate 0."""
+        t, pol = test, value_when
+        while isinstance(t, ast.UnaryOp) and isinstance(t.op, ast.Not):
+            t, pol = t.operand, not pol
+        v = value
+        while isinstance(v, ast.Call) and isinstance(
+                v.func, ast.Name) and v.func.id in (
+                "repr", "str", "num_to_str", "float_to_str", "int") and \
+                len(v.args) == 1:
+            v = v.args[0]
+        same = ast.dump(t) == ast.dump(v)
+        if same and pol:
+            self.truthy.append((test, ast.unparse(test)))
+        elif isinstance(t, ast.Compare) and len(t.ops) == 1 and isinstance(
+                t.ops[0], (ast.NotEq, ast.Gt, ast.Lt)) and ast.dump(
+                t.left) == ast.dump(v) and self.const(
+                t.comparators[0]) == 0 and pol:
+            self.truthy.append((test, ast.unparse(test)))
 
     def const(self, e: ast.expr) -> Any:
         return self.ctx.repo.const(self.fi.module, e)
@@ -58,8 +83,18 @@ class Tagger:
             # `x if key in d else ''` / `'' if key not in d else x`: the
             # optional cell of the same quantity
             if self.const(e.body) == "" and self.const(e.orelse) != "":
+                self.presence(e.test, False, e.orelse)
                 return self.tag_expr(e.orelse)
+            if self.const(e.orelse) == "":
+                self.presence(e.test, True, e.body)
             return self.tag_expr(e.body)
+        if isinstance(e, ast.Call) and isinstance(
+                e.func, ast.Attribute) and e.func.attr == "get" and \
+                1 <= len(e.args) <= 2 and not e.keywords and (
+                len(e.args) == 1 or self.const(e.args[1]) is None):
+            # d.get(k) reads d[k] (None when absent)
+            return self.tag_expr(ast.Subscript(
+                value=e.func.value, slice=e.args[0], ctx=ast.Load()))
         if isinstance(e, ast.Call) and isinstance(
                 e.func, ast.Name) and e.func.id == "csv_scope" and len(
                 e.args) == 2:
@@ -101,6 +136,8 @@ class Tagger:
             k = e.slice
             if isinstance(k, ast.Name) and k.id in self.bound_kind:
                 return ("bound", self.bound_kind[k.id], ("elem", "?"))
+            if self._bound_kind(k) is not None:
+                return ("bound", self._bound_kind(k), ("elem", "?"))
             if d == "objective_bounds":
                 return ("bound", "?", ("elem", "?"))
             return ("elem", _norm_coll(d))
@@ -120,7 +157,7 @@ class Tagger:
                     self.valtag.pop(tg.id, None)
                     if self.row:
                         t_ = self.tag_expr(v)
-                        if t_[0] in ("key",):
+                        if t_[0] in ("key", "bound", "elem"):
                             self.valtag[tg.id] = t_
                     # ox = csv_scope(ob, _OBJECTIVE_LOWER) / lb[i]
                     kind = self._bound_kind(v)
@@ -169,8 +206,15 @@ class Tagger:
                     # `if present: yield value else: yield ""` is the
                     # optional cell of that quantity (as `v if c else ""`)
                     if alt == empty and len(inner) == 1:
-                        pass
+                        ys = [x for x in s.body if isinstance(
+                            x, ast.Expr) and isinstance(x.value, ast.Yield)]
+                        if len(ys) == 1 and ys[0].value.value is not None:
+                            self.presence(s.test, True, ys[0].value.value)
                     elif inner == empty and len(alt) == 1:
+                        ys = [x for x in s.orelse if isinstance(
+                            x, ast.Expr) and isinstance(x.value, ast.Yield)]
+                        if len(ys) == 1 and ys[0].value.value is not None:
+                            self.presence(s.test, False, ys[0].value.value)
                         inner = alt
                     else:
                         inner = [("alt", inner, alt)]
@@ -282,7 +326,16 @@ def _csv_writer(ctx: Ctx, mod: Module) -> None:
     tm = ctx.need(w.methods.get("get_column_titles"), "get_column_titles")
     rm = ctx.need(w.methods.get("get_row"), "get_row")
     ts = _canon(Tagger(ctx, tm, False).stream(func_body(tm)))
-    rs = _canon(Tagger(ctx, rm, True).stream(func_body(rm)))
+    rtag = Tagger(ctx, rm, True)
+    rs = _canon(rtag.stream(func_body(rm)))
+    ctx.ob("D19.1", rm, rtag.truthy[0][0] if rtag.truthy else rm.node,
+           not rtag.truthy,
+           "optional cells are left empty only when the quantity is absent"
+           if not rtag.truthy else
+           "an optional cell is left empty when its VALUE is falsy ("
+           + "; ".join(f"`{t}`" for _, t in rtag.truthy) + "): a "
+           "legitimate 0 is written as an empty cell and read back as "
+           "absent", construct=f"{mod.name.split('.')[-1]} optional cells")
     ok = ts == rs and len(ts) >= 6
     detail = (f"{mod.name.split('.')[-1]}.CsvWriter: titles and rows emit "
               f"the same {len(ts)} quantities in the same order")
